@@ -215,7 +215,8 @@ def rule_bnaf_tree(prog, rep):
                "    return jnp.log(linear.weight[idxs].reshape(n_blocks, *block_shape))\n")
         fn2 = ast.parse(ref).body[0]
         it = Interp(prog, no_inline=noin)
-        env = Env()
+        from ..refs import prelude
+        env = Env(prelude(prog))
         env.set("block_shape", BS)
         env.set("n_blocks", N)
         w = it.apply_def(fn2, env, (m, None, None), [("bv", lvl, 0)], {})
